@@ -38,12 +38,12 @@ theorem isIdentity_gen {s : Summary} {ns : List String} {ch fv ow : Bool} (h : s
     isIdentity s = false := by
   unfold isIdentity; rw [h]; rfl
 
-/-- **the hash pattern**: with a generated `__hash__` (outside K1, K2, K5, K10a, K10c) the copy, the original and
+/-- **the hash pattern**: with a generated `__hash__` (outside K1, K2, K5 and an opted-out class inheriting a non-caching pair) the copy, the original and
     a freshly built equal instance are all hashable; the copy hashes like the fresh instance, and like the
     original unless the original was changed after it was hashed -/
 theorem hash_facts {s : Summary} (I : Inv s) {c : Case} {i0 x f y : Inst} (W : Wf s c i0)
-    (hk1 : k1 s = false) (hk2 : k2 s = false) (hk5 : k5 s c = false) (hk10a : k10a s c.op = false)
-    (hk10c : k10c s = false) (hgen : hashGenerated s = true)
+    (hk1 : k1 s = false) (hk2 : k2 s = false) (hk5 : k5 s c = false)
+    (hk10c : inhLosesCache s = false) (hgen : hashGenerated s = true)
     (hx : ∀ n ∈ s.names, read s.layout x n = some (.tok (cur c n)))
     (hf : ∀ n ∈ s.names, read s.layout f n = some (.tok (cur c n)))
     (hcx : read s.layout x CACHE =
@@ -144,7 +144,7 @@ theorem hash_facts {s : Summary} (I : Inv s) {c : Case} {i0 x f y : Inst} (W : W
               rw [this] at hyc
               obtain ⟨a1, a2, _⟩ := doHash_miss hh hyc hty
               exact ⟨a1, Or.inl a2⟩
-        · have hyc := T.cacheGS hg hcached hk1 hk10a hk10c
+        · have hyc := T.cacheGS hg hcached hk1 hk10c
           obtain ⟨a1, a2, _⟩ := doHash_miss hh hyc hty
           exact ⟨a1, Or.inl a2⟩
       obtain ⟨a1, a2⟩ := hcopy
